@@ -420,6 +420,11 @@ func (v *SequenceDiagramVisitor) visitEndpoint(e *EndpointElement) error {
 				}
 			}
 			if len(payload) > 0 {
+				if upto == nil {
+					// a call already in progress is shown but not expanded: its return still needs
+					// an activation of its own, or the deactivation below ends the caller's
+					v.w.Activate(agent)
+				}
 				if !isHidden {
 					fmt.Fprintf(v.w, "%s<--%s : %s\n", sender, agent, payload)
 				}
